@@ -166,7 +166,71 @@ def make_system(setup: str, nthreads: int, with_finalise: bool):
     return make
 
 
+FS_FILE = _mpu_fs.__file__
+
+
+def make_filesink_system(nthreads: int):
+    """Workers write their first part through ONE MPUFileSink whose parts directory does not exist yet (the
+    exists()/mkdir() pair in _ensure_dst_file is a check-then-act on shared file-system state); worker 0 then
+    finalises once all parts are written. Scheduling points: every line of cog/_mpu_fs.py."""
+
+    def make(prefix):
+        s = sched.Sched(prefix, [FS_FILE])
+        td = tempfile.mkdtemp(prefix="vf-c18s-")
+        sink = _mpu_fs.MPUFileSink(os.path.join(td, "out.bin"))
+        done = {"n": 0, "receipts": {}}
+        ev = object()
+
+        def body(k):
+            def run():
+                rr = sink(k + 1, bytes([65 + k]) * (3 + k))
+                done["receipts"][k] = rr
+                done["n"] += 1
+                if done["n"] == nthreads:
+                    s.wake(ev)
+                if k == 0:
+                    while done["n"] < nthreads:
+                        s.block(ev)
+                    return sink.finalise([done["receipts"][i] for i in range(nthreads)])
+                return rr
+
+            return run
+
+        try:
+            for k in range(nthreads):
+                s.spawn(body(k), f"w{k}")
+            s.run()
+            out = os.path.join(td, "out.bin")
+            s.fs_result = open(out, "rb").read() if os.path.exists(out) else None
+            s.fs_left = sorted(p for p in os.listdir(td) if p != "out.bin")
+        finally:
+            shutil.rmtree(td, ignore_errors=True)
+        s.nthreads = nthreads
+        return s
+
+    return make
+
+
+def judge_filesink(x: sched.Sched):
+    out = []
+    if x.deadlock:
+        out.append(("deadlock:filesink", "no enabled thread while some are blocked (a worker died before finishing its write)"))
+    for name, err in x.errors():
+        site = core.raise_site(err) if core.in_repo_tb(err) else None
+        if site is None:
+            raise err
+        out.append((f"worker-exception:{type(err).__name__}@{site}:filesink", f"{name}: {type(err).__name__}: {err}"))
+    want = b"".join(bytes([65 + k]) * (3 + k) for k in range(x.nthreads))
+    if not out and x.fs_result != want:
+        out.append(("filesink:content", f"destination holds {x.fs_result!r}, expected {want!r}"))
+    if not out and x.fs_left:
+        out.append(("filesink:parts-left", f"{x.fs_left}"))
+    return out
+
+
 def judge(x: sched.Sched, setup: str, nthreads: int, with_finalise: bool):
+    if setup == "filesink":
+        return judge_filesink(x)
     """-> list[(key, msg)] for one completed schedule"""
     out = []
     if x.livelock:
@@ -211,7 +275,7 @@ def describe(x: sched.Sched):
 
 def run_sched_case(case):
     setup, nthreads, with_finalise, bound, part = case
-    make = make_system(setup, nthreads, with_finalise)
+    make = make_filesink_system(nthreads) if setup == "filesink" else make_system(setup, nthreads, with_finalise)
     fails = {}
     outcomes = Counter()
     first = {}
@@ -242,6 +306,8 @@ def run_sched_case(case):
 
 
 def _winner(x):
+    if not hasattr(x, "s3"):
+        return "-"
     for tid, lab in x.trace:
         if lab == "s3.create:begin":
             return tid
@@ -261,6 +327,9 @@ def sched_cases(tier):
         for b in base:
             for part in range(NPART):
                 yield (*b, part)
+    for part in range(NPART):
+        yield ("filesink", 2, True, 2 if tier == "quick" else 3, part)
+        yield ("filesink", 3, True, 1 if tier == "quick" else 2, part)
 
 
 def replay_sched(case):
